@@ -16,10 +16,13 @@ namespace NutsModel.Model
 
 inductive FaultKind where
   | recoverable | unrecoverable | nanLogp | posInfLogp | negInfLogp | nanGrad | infGrad | zeroGrad
+  /-- a finite log-density so low that the energy error of the step exceeds the CONFIGURED `max_energy_error`
+      (but not the fixed limit 1000 of the step-size search) -/
+  | energyJump
   deriving DecidableEq, Repr, Inhabited
 
 def FaultKind.all : List FaultKind :=
-  [.recoverable, .unrecoverable, .nanLogp, .posInfLogp, .negInfLogp, .nanGrad, .infGrad, .zeroGrad]
+  [.recoverable, .unrecoverable, .nanLogp, .posInfLogp, .negInfLogp, .nanGrad, .infGrad, .zeroGrad, .energyJump]
 
 /-- what a density evaluation hands to its caller -/
 structure EvalRes where
@@ -28,6 +31,8 @@ structure EvalRes where
   logpFinite : Bool := true
   gradFinite : Bool := true
   gradNonzero : Bool := true
+  /-- the energy error of a trajectory leapfrog ending here is above the configured `max_energy_error` -/
+  energyOver : Bool := false
   deriving DecidableEq, Repr
 
 def EvalRes.good : EvalRes := {}
@@ -38,14 +43,16 @@ def evalOf : FaultKind → EvalRes
   | .nanLogp | .posInfLogp | .negInfLogp => { logpFinite := false }
   | .nanGrad | .infGrad => { gradFinite := false }
   | .zeroGrad => { gradNonzero := false }
+  | .energyJump => { energyOver := true }
 
 /-- `leapfrog`: recoverable error → divergence, unrecoverable → error; a non-finite log-density or
-    gradient gives a non-finite (or too large) energy error → divergence -/
+    gradient gives a non-finite (or too large) energy error → divergence; so does a finite energy error above the
+    configured `max_energy_error` — in EVERY doubling, also those that run without the U-turn check (below `mindepth`, extra doublings) -/
 def leapOf (e : EvalRes) : LeapOutcome :=
   match e.err with
   | some true => .diverge
   | some false => .err
-  | none => if e.logpFinite && e.gradFinite then .ok else .diverge
+  | none => if e.logpFinite && e.gradFinite && !e.energyOver then .ok else .diverge
 
 /-- `init_state_untransformed` (first evaluation of `set_position`; only the gradient is used) -/
 def initUntransformedOk (e : EvalRes) : Bool :=
@@ -71,7 +78,8 @@ inductive CallOut where
   | okDiverging    -- `Ok`, draw flagged as divergent
   deriving DecidableEq, Repr, Inhabited
 
-/-- a trial leapfrog of the step-size search: only an unrecoverable error ends the call -/
+/-- a trial leapfrog of the step-size search (its own energy limit is the constant 1000, whatever `max_energy_error` says):
+    only an unrecoverable error ends the call -/
 def trialOut (e : EvalRes) : Bool := leapOf e != .err
 
 /-- Outcomes a call may have when exactly one of its evaluations returned `e` and all others were good.
